@@ -295,7 +295,7 @@ def access_job(job: Dict[str, Any]) -> Dict[str, Any]:
     uses_rt = any(s[0] == "rt" for s in path)
     if uses_rt:
         cfg.lens[ARG1] = (8,)
-    eng = Engine(timeout_ms=job.get("timeout_ms", 20000), max_paths=3000)
+    eng = Engine(timeout_ms=job.get("timeout_ms", 20000), max_paths=job.get("max_paths", 600))
     na = z3.BitVec("g0.NumAppArgs", 64)
     pre = [z3.UGE(na, z3.BitVecVal(2 if uses_rt else 1, 64)), z3.ULE(na, z3.BitVecVal(16, 64))]
     shape = {"GroupIndex": 0}
@@ -333,7 +333,15 @@ def access_job(job: Dict[str, Any]) -> Dict[str, Any]:
 
     follow(t, v, 0, [])
     runner = tv.teal_runner_for(prog, cfg, eng, Bounds(loop_k=4, call_depth=6))
-    res = tv.check_against(refs, runner, eng, want_sample=job.get("want_sample", False))
+    try:
+        res = tv.check_against(refs, runner, eng, want_sample=job.get("want_sample", False))
+    except HarnessError as e:
+        if "path budget" not in str(e):
+            raise
+        # too many length/index forks for this shape: reported as inconclusive (never as passed)
+        out.update({"status": "ok", "obligations": len(refs), "discharged": 0, "inconclusive": len(refs), "skipped_path_budget": 1,
+                    "stats": eng.stats.as_dict()})
+        return out
     _finish(out, job, res, eng)
     base = {"kind": "access", "type": T.T_str(t), "job": job}
     for cand in res.candidates:
